@@ -116,6 +116,8 @@ def gen_election(rng, size="small", district=False, roles=None, min_reporting=8,
     e.threshold = rng.choice([100, 100, 90, 50])
     role_pool = roles or (["reporting"] * 6 + ["partial"] * 3 if plain else ROLES)
     rows, feed = [], []
+    # precinct ids are not always numeric: many carry a lower case name (`04001_02-alpine`); an id is an opaque string
+    named = e.unit_type != "county" and rng.random() < 0.35
     n_target = rng.randint(15, 40) if size == "small" else rng.randint(40, 120)
     per_state = max(3, n_target // ns)
     if many_districts:
@@ -139,6 +141,8 @@ def gen_election(rng, size="small", district=False, roles=None, min_reporting=8,
             else:
                 cf = rng.choice(counties)
                 uid = f"{cf}_{ui:03d}"
+                if named:
+                    uid += "-" + rng.choice(["alpine", "oak-creek", "red-rock", "mesa", "St. Johns"])
             d = rng.choice(dists)
             if district:
                 uid = f"{d}_{uid}"
